@@ -300,22 +300,50 @@ func ptrTo(v any, depth int) any {
 func buildSlice(n Node) any {
 	kids := nKids(n, "e")
 	arr := nBool(n, "arr")
-	if len(kids) > 0 && nStr(kids[0], "t") == "sl" {
-		out := [][]int{}
+	slack := argIntDefault(n["slack"], 0) // spare backing capacity: allocated differently, same value
+	switch nStr(n, "ety") {
+	case "ptr": // []*int, a nil element is a nil pointer
+		out := make([]*int, 0, len(kids)+slack)
 		for _, k := range kids {
-			inner, _ := buildSlice(k).([]int)
+			if nStr(k, "t") == "nil" {
+				out = append(out, nil)
+				continue
+			}
+			i, _ := strconv.Atoi(Detok(nToks(k, "v")))
+			out = append(out, &i)
+		}
+		return out
+	case "any": // []any of arbitrary leaves
+		out := make([]any, 0, len(kids)+slack)
+		for _, k := range kids {
+			out = append(out, BuildNode(k))
+		}
+		return out
+	}
+	if len(kids) > 0 && nStr(kids[0], "t") == "sl" {
+		out := make([][]int, 0, len(kids)+slack)
+		gen := make([]any, 0, len(kids)+slack)
+		typed := true
+		for _, k := range kids {
+			b := buildSlice(k)
+			inner, ok := b.([]int)
+			typed = typed && ok
 			out = append(out, inner)
+			gen = append(gen, b)
+		}
+		if !typed {
+			return gen // an inner []*int / []any / array does not fit [][]int: the outer one becomes []any (same value)
 		}
 		return out
 	}
 	if len(kids) > 0 && nStr(kids[0], "ty") == "str" {
-		out := []string{}
+		out := make([]string, 0, len(kids)+slack)
 		for _, k := range kids {
 			out = append(out, Detok(nToks(k, "v")))
 		}
 		return out
 	}
-	ints := []int{}
+	ints := make([]int, 0, len(kids)+slack)
 	for _, k := range kids {
 		i, _ := strconv.Atoi(Detok(nToks(k, "v")))
 		ints = append(ints, i)
